@@ -40,6 +40,7 @@ TB.LEAN_TY.update({
     "Onsets": "List Int", "Attr": "TzStr.Attr", "Res": "TzStr.Res", "OptRes": "Option TzStr.Res", "Kw": "ObjPy.Kw",
     "KwWd": "(Option Int × Option Int)", "Delta": "TzStr.Delta", "OptDelta": "Option TzStr.Delta",
     "DArg": "ObjPy.DArg", "Zone": "TzStr.Zone", "Jan1": "Int", "OrdSec": "Int", "OptOrdPair": "Option (Int × Int)",
+    "OptCStr": "Option (List Char)", "NameFn": "ICal.ZComp → Option (List Char)",
 })
 TB.DEFAULT.update({"CStr": "[]", "Kw": "{}", "OptZComp": "none", "OptDt": "none", "DArg": "ObjPy.DArg.none",
                    "OptPStr": "none", "OptDelta": "none", "Res": "default"})
@@ -130,6 +131,9 @@ class OTr(TD.DTr):
             if ty == "OptZComp":          # attribute of a possibly-None component: AttributeError
                 n = self.fresh()
                 b, t, ty = b + [(n, "DtPy.attr %s" % t, "ZComp")], n, "ZComp"
+            if ty == "ZComp" and e.attr == "tzname" and self.types.get("self_tzname_of") == "NameFn":
+                # the TZNAME of a component object: an uninterpreted field of the object (ICal.ZComp carries none)
+                return b, "(self_tzname_of %s)" % t, "OptCStr"
             if ty in OBJ_ATTRS and e.attr in OBJ_ATTRS[ty]:
                 tmpl, rty = OBJ_ATTRS[ty][e.attr]
                 return b, tmpl % t, rty
@@ -653,6 +657,7 @@ OBJ_GROUPS = [
             locals={"lastcompdt": "OptDt", "lastcomp": "OptZComp"}),
         OFn("_tzicalvtz.utcoffset", "tzicalvtz_utcoffset", [("dt", "Dt")], "TD", V, state=CACHE),
         OFn("_tzicalvtz.dst", "tzicalvtz_dst", [("dt", "Dt")], "TD", V, state=CACHE),
+        OFn("_tzicalvtz.tzname", "tzicalvtz_tzname", [("dt", "Dt")], "OptCStr", V, self_attrs={"tzname_of": "NameFn"}, state=CACHE),
         OFn("tzrange.__init__", "tzrange_init", [("stdabbr", "OptPStr"), ("stdoffset", "OptInt"), ("dstabbr", "OptPStr"),
                                                  ("dstoffset", "OptInt"), ("start", "DArg"), ("end", "DArg")], "Zone",
             state=ZFIELDS, ctor=True, ignore={"_dst_base_offset_"}),
